@@ -32,12 +32,34 @@ type RealStormPlan struct {
 	Broadcasters int `json:"broadcasters"`
 	NoiseCalls   int `json:"noise_calls"`
 	SpinMax      int `json:"spin_max"` // the aimed Broadcast is delayed by round%SpinMax spins
+	// Monitor: instead of a plain mutex the Locker is a "monitor" lock whose Unlock broadcasts on the cond when
+	// the protected state has been changed (the waiter changes it before it waits): user code that runs inside
+	// Wait - the Locker's Unlock - calls back into the cond
+	Monitor bool `json:"monitor,omitempty"`
+}
+
+// monitorLock broadcasts from inside Unlock when the state it protects is dirty.
+type monitorLock struct {
+	mu    sync.Mutex
+	dirty bool
+	c     *xsync.ContextCond
+}
+
+func (m *monitorLock) Lock() { m.mu.Lock() }
+func (m *monitorLock) Unlock() {
+	d := m.dirty
+	m.dirty = false
+	m.mu.Unlock()
+	if d {
+		m.c.Broadcast()
+	}
 }
 
 func genRealStorm(t *rapid.T) RealStormPlan {
 	return RealStormPlan{Rounds: rapid.IntRange(200, 1000).Draw(t, "rounds"),
 		Signalers: rapid.SampledFrom([]int{0, 0, 1, 2}).Draw(t, "signalers"), Broadcasters: rapid.SampledFrom([]int{0, 0, 1, 2}).Draw(t, "broadcasters"),
-		NoiseCalls: rapid.SampledFrom([]int{20, 100, 400}).Draw(t, "noisecalls"), SpinMax: rapid.SampledFrom([]int{1, 8, 32, 128}).Draw(t, "spinmax")}
+		NoiseCalls: rapid.SampledFrom([]int{20, 100, 400}).Draw(t, "noisecalls"), SpinMax: rapid.SampledFrom([]int{1, 8, 32, 128}).Draw(t, "spinmax"),
+		Monitor: rapid.IntRange(0, 3).Draw(t, "monitor") == 0}
 }
 
 var spinSink atomic.Int64
@@ -45,6 +67,48 @@ var spinSink atomic.Int64
 func runRealStorm(p RealStormPlan) (vk.Outcome, error) {
 	var out vk.Outcome
 	for round := 0; round < p.Rounds; round++ {
+		if p.Monitor {
+			// the waiter dirties the state and waits: its own Unlock (inside Wait) broadcasts. Whether that wakes
+			// it or not, a Signal after it has entered Wait does, and nothing gets stuck.
+			m := &monitorLock{}
+			m.c = xsync.NewContextCond(m)
+			done := make(chan error, 1)
+			go func() {
+				m.Lock()
+				m.dirty = round%2 == 0
+				err := m.c.Wait(context.Background())
+				if err == nil {
+					m.Unlock()
+				}
+				done <- err
+			}()
+			if round > p.Rounds/10+5 {
+				break
+			}
+			sig := make(chan struct{})
+			var through atomic.Bool
+			go func() {
+				defer close(sig)
+				for i := 0; i < 2000 && !through.Load(); i++ { // (signals until the waiter is through: the first may precede its Wait)
+					m.Lock()
+					m.Unlock()
+					m.c.Signal()
+					time.Sleep(50 * time.Microsecond)
+				}
+			}()
+			select {
+			case err := <-done:
+				through.Store(true)
+				if err != nil {
+					return out, vk.Violf("wrong-error", "round %d: Wait with a context that never ends returned %v", round, err)
+				}
+			case <-vk.After(10 * time.Second):
+				through.Store(true)
+				return out, vk.Violf("wedged", "round %d: a Locker whose Unlock calls Broadcast (state dirty: %v): Wait has not returned 10 s after Signals that followed its entry", round, round%2 == 0)
+			}
+			<-sig
+			continue
+		}
 		var mu sync.Mutex
 		c := xsync.NewContextCond(&mu)
 		// the waiter and the aimed Broadcast leave a common starting line (both spin on a flag: a channel
